@@ -4,7 +4,32 @@ Property theorems only (model and spec: KinModel/Body.lean; helper lemmas: KinMo
 -/
 import KinModel.Body
 import KinModel.Lemmas.C06
+import KinModel.Gen.BodyDecoders
 namespace KinModel.Body
+
+/-! ## (T) the decoder registry of the model is the one the source builds -/
+
+/-- the translator could read every registry statement of the source -/
+theorem registry_table_recognised :
+    Gen.bodyDecoders.all (fun r => match r with | .unrecognised _ => false | .reg _ _ => true) = true := by decide
+
+/-- the model's registry is, entry by entry and in order, the list of `RegisterBodyDecoder` calls of
+`openapi3filter`'s `init` (regenerated from the working tree on every run) -/
+theorem registry_matches_source :
+    Gen.bodyDecoders.map (fun r => match r with | .reg k d => (k, d) | .unrecognised s => (s, "")) = registrySrc := by
+  decide
+
+/-- every registered decoder name is one the model knows (no entry is silently dropped by `registryOf`) -/
+theorem registry_complete : (registryOf registrySrc).length = registrySrc.length := by decide
+
+/-- the four media types the property names are routed to the four decoders the model describes, and the
+registry has no two entries for one media type (it is a Go map) -/
+theorem registry_routes :
+    lookup "application/json".toList registry = some .json ∧
+    lookup "application/x-www-form-urlencoded".toList registry = some .urlencoded ∧
+    lookup "multipart/form-data".toList registry = some .multipart ∧
+    lookup "text/plain".toList registry = some .plain ∧
+    (keys registry).Nodup := by decide
 
 /-! ## (a) media-type selection -/
 
@@ -128,7 +153,7 @@ end decision
 /-! ## (c) request-side reading of schemas -/
 
 /- Full-strength statement (does NOT hold of the code, see `readOnlyNull_witness`):
-     theorem visit_asreq_iff (exro) (s) (v) : visit exro s v = true ↔ SatReq exro s v
+     visit_asreq_iff (exro) (s) (v) : visit exro s v = true ↔ SatReq exro s v
    What is proved: the same statement outside the exclusion class `roNull` (a readOnly property sent as null). -/
 
 /-- **C06(c).** Outside the class `ReadOnlyNull`, the request-side validator accepts a value exactly when the
@@ -533,7 +558,7 @@ theorem decode_agrees (reg : List (Str × DecK)) (rb : ReqBody) (ct : Str) (b : 
   | none => simp
   | some k =>
     cases k with
-    | json => cases hj : b.json <;> simp [decodeSimple, hj]
+    | json => cases b.json <;> simp [decodeSimple]
     | plain => simp [decodeSimple]
     | file => simp [decodeSimple]
     | yaml => simp [decodeSimple]
@@ -567,7 +592,7 @@ theorem decode_agrees (reg : List (Str × DecK)) (rb : ReqBody) (ct : Str) (b : 
             simp [this]
 
 /- Full-strength statement (does NOT hold of the code, see the three witnesses):
-     theorem accept_iff : (validateRequestBody reg rb ct b exro).isOk = true ↔ Accept reg rb ct b exro  -/
+     accept_iff : (validateRequestBody reg rb ct b exro).isOk = true ↔ Accept reg rb ct b exro  -/
 
 /-- **C06, main theorem.** Outside the three exclusion classes, request-body validation accepts exactly when
 the property says so: an empty body iff not required; otherwise the media type is the first declared one in
@@ -627,5 +652,109 @@ theorem accept_iff_partial (reg : List (Str × DecK)) (rb : ReqBody) (ct : Str) 
                 rw [hsv] at hv'; cases hv'
                 have := hv.mpr hsat
                 simp [this, Outcome.isOk]
+
+/-- the executable oracle of the correspondence run decides the property -/
+theorem acceptB_iff (reg : List (Str × DecK)) (rb : ReqBody) (ct : Str) (b : BodyIn) (exro : Bool) :
+    acceptB reg rb ct b exro = true ↔ Accept reg rb ct b exro := by
+  unfold acceptB Accept
+  by_cases ht : b.text = []
+  · cases hr : rb.required <;> simp [ht, hr]
+  · by_cases hc : rb.content = []
+    · simp [ht, hc]
+    · rw [if_neg ht, if_neg hc]
+      have hA : ∀ P : Prop, ((b.text = [] ∧ rb.required = false) ∨ (b.text ≠ [] ∧ (rb.content = [] ∨ P))) ↔ P := by
+        intro P
+        constructor
+        · rintro (⟨h0, _⟩ | ⟨_, h0 | h0⟩)
+          · exact absurd h0 ht
+          · exact absurd h0 hc
+          · exact h0
+        · intro h; exact Or.inr ⟨ht, Or.inr h⟩
+      rw [hA]
+      cases hs : firstSome rb.content (candidates ct) with
+      | none => simp
+      | some mt =>
+        cases hn : mt.schema with
+        | none => simp only [hn, true_iff]; exact ⟨mt, rfl, Or.inl hn⟩
+        | some s =>
+          cases hd : specDecode reg ct s mt.encs b with
+          | none =>
+            simp only [hn, hd, Bool.false_eq_true, false_iff]
+            rintro ⟨mt', hmt', hsch | ⟨s', v', hs', hv', _⟩⟩
+            · cases hmt'; rw [hn] at hsch; cases hsch
+            · cases hmt'; rw [hn] at hs'; cases hs'; rw [hd] at hv'; cases hv'
+          | some v =>
+            simp only [hn, hd]
+            constructor
+            · intro h; exact ⟨mt, rfl, Or.inr ⟨s, v, hn, hd, (satReqB_iff exro s v).mp h⟩⟩
+            · rintro ⟨mt', hmt', hsch | ⟨s', v', hs', hv', hsat⟩⟩
+              · cases hmt'; rw [hn] at hsch; cases hsch
+              · cases hmt'; rw [hn] at hs'; cases hs'; rw [hd] at hv'; cases hv'
+                exact (satReqB_iff exro s v).mpr hsat
+
+/-! ### witnesses at the level of the whole decision, and non-vacuity -/
+
+def exStr (s : String) : Str := s.toList
+def exInt : RS := RS.mk (some .integer) false false false 0 none [] [] none none
+def exString : RS := RS.mk (some .string) false false false 0 none [] [] none none
+def exObj (props : List (Str × RS)) (req : List Str) : RS := RS.mk (some .object) false false false 0 none props req none none
+def exForm : Str := exStr "application/x-www-form-urlencoded"
+def exBody (text : String) (json : Option V) (form : Option (List (Str × List Str))) : BodyIn :=
+  { text := text.toList, json := json, form := form, parts := none }
+
+/-- F-C06-1 (#20): `a=x` against `{a: integer}` — the field is dropped, the body accepted; the body encodes nothing -/
+theorem witness_formFieldUnparsable :
+    let rb : ReqBody := ⟨true, [(exForm, ⟨some (exObj [(exStr "a", exInt)] []), []⟩)]⟩
+    let b := exBody "a=x" none (some [(exStr "a", [exStr "x"])])
+    exclFormUnparsable registry rb exForm b = true ∧
+    validateRequestBody registry rb exForm b false = .ok ∧ acceptB registry rb exForm b false = false := by decide
+
+/-- F-C06-3: `b=1` against optional `{a: string, b: integer}` — `a` is stored as null and the body rejected,
+although it encodes the valid object `{b: 1}` -/
+theorem witness_formNullForMissing :
+    let rb : ReqBody := ⟨true, [(exForm, ⟨some (exObj [(exStr "a", exString), (exStr "b", exInt)] []), []⟩)]⟩
+    let b := exBody "b=1" none (some [(exStr "b", [exStr "1"])])
+    exclFormNull registry rb exForm b = true ∧
+    validateRequestBody registry rb exForm b false = .schemaErr ∧ acceptB registry rb exForm b false = true := by decide
+
+/-- F-C06-2: JSON body `{"a": null}` against `{a: string, readOnly, nullable}` is accepted -/
+theorem witness_readOnlyNull :
+    let pa := RS.mk (some .string) true true false 0 none [] [] none none
+    let rb : ReqBody := ⟨true, [(exStr "application/json", ⟨some (exObj [(exStr "a", pa)] []), []⟩)]⟩
+    let b := exBody "{\"a\":null}" (some (.obj [(exStr "a", .null)])) none
+    exclReadOnlyNull registry rb (exStr "application/json") b false = true ∧
+    validateRequestBody registry rb (exStr "application/json") b false = .ok ∧
+    acceptB registry rb (exStr "application/json") b false = false := by decide
+
+/-- #36 (fixed): a JSON body with trailing data is not one JSON value: the decoder's view is `none`, the
+model rejects with a decoding error and so does the property -/
+theorem trailing_data_rejected :
+    let rb : ReqBody := ⟨true, [(exStr "application/json", ⟨some (exObj [(exStr "a", exInt)] []), []⟩)]⟩
+    let b := exBody "{\"a\":1} trailing" none none
+    validateRequestBody registry rb (exStr "application/json") b false = .decodeErr ∧
+    acceptB registry rb (exStr "application/json") b false = false := by decide
+
+/- non-vacuity of `accept_iff_partial`: every hypothesis holds on non-trivial inputs of each kind, with both verdicts -/
+example :
+    let rb : ReqBody := ⟨true, [(exStr "application/*", ⟨some (exObj [(exStr "a", exInt), (exStr "b", exString)] [exStr "a"]), []⟩)]⟩
+    let ct := exStr "application/x-www-form-urlencoded; charset=utf-8"
+    let b := exBody "a=7&b=x" none (some [(exStr "a", [exStr "7"]), (exStr "b", [exStr "x"])])
+    formEncsWF registry rb ct b = true ∧ exclFormUnparsable registry rb ct b = false ∧ exclFormNull registry rb ct b = false ∧
+    exclReadOnlyNull registry rb ct b false = false ∧
+    validateRequestBody registry rb ct b false = .ok ∧ acceptB registry rb ct b false = true := by decide
+
+example :
+    let ro := RS.mk (some .string) false true false 0 none [] [] none none
+    let rb : ReqBody := ⟨false, [(exStr "application/json", ⟨some (exObj [(exStr "id", ro), (exStr "n", exInt)] [exStr "id", exStr "n"]), []⟩),
+                                 (star, ⟨none, []⟩)]⟩
+    let ct := exStr "application/json; charset=utf-8"
+    let good := exBody "{\"n\":1}" (some (.obj [(exStr "n", .int 1)])) none
+    let bad := exBody "{\"id\":\"x\",\"n\":1}" (some (.obj [(exStr "id", .str (exStr "x")), (exStr "n", .int 1)])) none
+    exclReadOnlyNull registry rb ct good false = false ∧ exclReadOnlyNull registry rb ct bad false = false ∧
+    validateRequestBody registry rb ct good false = .ok ∧ acceptB registry rb ct good false = true ∧
+    validateRequestBody registry rb ct bad false = .schemaErr ∧ acceptB registry rb ct bad false = false ∧
+    validateRequestBody registry rb ct bad true = .ok ∧ acceptB registry rb ct bad true = true ∧
+    validateRequestBody registry rb (exStr "text/plain") good false = .ok ∧
+    validateRequestBody registry ⟨false, [(exStr "application/json", ⟨none, []⟩)]⟩ (exStr "text/plain") good false = .badCT := by decide
 
 end KinModel.Body
